@@ -64,7 +64,7 @@ func init() {
 		ID:          "C37",
 		Explanation: "RT: the set of compilerpb.{Report,Report_File,Diagnostic,Diagnostic_Annotation,Diagnostic_Edit} fields written by ToProto equals the set read by AppendFromProto and covers every field of the messages; every field of report.Diagnostic/snippet/Edit is carried (except the reviewed sortOrder); the Report_File record is produced by (*source.File).Path/Text (resolved callees), the inverse of the decoder's source.NewFile(path, text); the decoder's span validation is evaluated on all (start,end,len) triples of a small model and must reject exactly start>end or end>len; its level switch accepts every Level constant.",
 		NotDecided:  "text/edit content equality (delegated to protobuf)",
-		Rules:       []func(*World){rtReport},
+		Rules:       []func(*World){rtReport, rt2PermutationDirection, rt3ScratchNotStored},
 	})
 	register(&Property{
 		ID:          "C27",
